@@ -1,2 +1,76 @@
-(* Props/C18.v — placeholder, theorems added in a later commit *)
-From NIR Require Import Model.Serial.
+(* Props/C18.v — Deserialisation is closed-world and strict.
+   The whitelist, its binding to classes and the per-class field tables are REGENERATED from the
+   live package (Gen/Tables.v) on every run; the facts about them below are proved by computation,
+   so adding a name to the whitelist, binding it to something that is not its own dataclass, or
+   giving a field a default makes a Qed fail. *)
+From NIR Require Import Model.Serial Proofs.MirrorClosedProofs.
+
+(* the whitelist in the source is exactly the 18 serialisable primitives, each bound to its own class *)
+Theorem c18_whitelist :
+  Forall (fun p => fst p = snd p /\ kind_of_name (snd p) <> None) whitelist_binding /\
+  map fst whitelist_binding = whitelist /\
+  List.length whitelist = 18%nat /\
+  NoDup whitelist.
+Proof. exact whitelist_is_the_18_primitives. Qed.
+
+Theorem c18_whitelist_exact : forall s, In s whitelist <-> exists k, kind_name k = s.
+Proof. exact whitelist_exact. Qed.
+
+(* CLOSED WORLD: whatever is constructed was named by a whitelisted type string and IS that primitive;
+   nothing else bound in the library's or Python's namespaces can be reached through the string *)
+Theorem c18_closed : forall d n, from_dict d = Ok n ->
+  exists s, assoc "type" d = Some (VStr s) /\ In s whitelist /\ kind_name (node_kind n) = s.
+Proof. exact from_dict_closed. Qed.
+
+Theorem c18_unlisted_raises : forall fuel d s,
+  assoc "type" d = Some (VStr s) -> ~ In s whitelist -> exists e, dict2node fuel d = Err e.
+Proof. exact dict2node_rejects_unlisted. Qed.
+
+Theorem c18_bytes_tag_raises : forall fuel d s,
+  assoc "type" d = Some (VBytes s) -> exists e, dict2node fuel d = Err e.
+Proof. exact dict2node_rejects_bytes_tag. Qed.
+
+(* STRICT: an unknown extra key, or a missing mandatory field, raises (an Err carries no object) *)
+Theorem c18_unknown_key_raises : forall k args fs f v,
+  class_fields k = Some fs -> In (f, v) args -> ~ In f (keys fs) -> construct k args = Err TypeError.
+Proof. exact construct_unknown_key. Qed.
+
+Theorem c18_missing_mandatory_raises : forall k args fs f,
+  class_fields k = Some fs -> In (f, FMandatory) fs -> assoc f args = None ->
+  exists e, construct k args = Err e.
+Proof. exact construct_missing_mandatory. Qed.
+
+Theorem c18_tables_total : forall k, class_fields k <> None.
+Proof. exact class_fields_total. Qed.
+
+(* the mandatory fields of the regenerated table (a field that silently acquires a default changes this) *)
+Example c18_mandatory_table :
+  map (fun k => (kind_name k,
+                 match class_fields k with
+                 | Some fs => map fst (filter (fun p => match snd p with FMandatory => true | _ => false end) fs)
+                 | None => [] end)) all_kinds =
+  [("Input", ["input_type"]); ("Output", ["output_type"]); ("Affine", ["weight"; "bias"]);
+   ("Linear", ["weight"]); ("Scale", ["scale"]);
+   ("Conv1d", ["input_shape"; "weight"; "stride"; "padding"; "dilation"; "groups"; "bias"]);
+   ("Conv2d", ["input_shape"; "weight"; "stride"; "padding"; "dilation"; "groups"; "bias"]);
+   ("SumPool2d", ["kernel_size"; "stride"; "padding"]); ("AvgPool2d", ["kernel_size"; "stride"; "padding"]);
+   ("Flatten", []); ("Delay", ["delay"]); ("Threshold", ["threshold"]); ("I", ["r"]);
+   ("IF", ["r"; "v_threshold"]); ("LI", ["tau"; "r"; "v_leak"]); ("LIF", ["tau"; "r"; "v_leak"; "v_threshold"]);
+   ("CubaLIF", ["tau_syn"; "tau_mem"; "r"; "v_leak"; "v_threshold"]); ("NIRGraph", ["nodes"; "edges"])].
+Proof. vm_compute. reflexivity. Qed.
+
+(* non-vacuity / negative controls *)
+Example c18_example :
+  forallb (fun s => negb (mem_str s whitelist))
+          ["NIRNode"; "dict2NIRNode"; "str2NIRNode"; "read"; "write"; "typing"; "__builtins__";
+           "eval"; "exec"; "open"; "__import__"; "Any"; "Dict"; "PackageNotFoundError"] = true.
+Proof. exact non_primitives_not_whitelisted. Qed.
+
+Print Assumptions c18_whitelist.
+Print Assumptions c18_whitelist_exact.
+Print Assumptions c18_closed.
+Print Assumptions c18_unlisted_raises.
+Print Assumptions c18_bytes_tag_raises.
+Print Assumptions c18_unknown_key_raises.
+Print Assumptions c18_missing_mandatory_raises.
+Print Assumptions c18_tables_total.
